@@ -261,6 +261,20 @@ Theorem C14_side_active_module_sites :
   /\ gen_unwind_truncates_then_loads = true /\ gen_globals_use_active_module = true
   /\ gen_closure_takes_active_module = true.
 Proof. vm_compute; repeat split; reflexivity. Qed.
+(* round 7 - WHERE the registers that say "which code runs" are written (vm.rs, every function): Vm.active_module only by
+   reset and load_frame; active_chunk only by init_heap_allocated_data and load_frame (nobody restores chunk / ip by hand and
+   forgets the module); the running fiber is switched only by load_fiber / unload_fiber (execute clears it), each calling
+   load_frame unconditionally after the switch; frames are popped only by return_impl (a finished fiber hands back through
+   unload_fiber), truncated only by unwind_stack, pushed only by call_closure; those five are exactly the callers of load_frame *)
+Theorem C14_side_frame_switch_sites :
+  gen_frame_switch_sites =
+  [("active_module=", ["reset"; "load_frame"]); ("active_chunk=", ["init_heap_allocated_data"; "load_frame"]);
+   ("fiber.replace", ["load_fiber"; "unload_fiber"]); ("fiber=", ["execute"]); ("unsafe_fiber=", ["load_fiber"; "unload_fiber"]);
+   ("frames.pop", ["return_impl"]); ("frames.truncate", ["unwind_stack"]); ("push_call_frame", ["call_closure"]);
+   ("load_frame()", ["load_fiber"; "unload_fiber"; "return_impl"; "call_closure"; "unwind_stack"]);
+   ("load_fiber()", ["execute"]); ("unload_fiber()", ["return_impl"])]
+  /\ gen_fiber_switch_then_loads = true /\ gen_return_finished_fiber_unloads = true.
+Proof. vm_compute; repeat split; reflexivity. Qed.
 (* the built-in file loader (default_read_module_source, used when the host installs none): the file is
    Path(path).with_extension("yl"); EVERY failure of fs::read_to_string is an ImportError
    "Unable to read file '<file>' (<reason>)." - reason by io::ErrorKind, "other" for the kinds not listed; the host loader
@@ -334,6 +348,18 @@ Theorem C14_escaped_function_keeps_old_instance :
   /\ ex_obs ex_escape_reload_inside = ex_spec ex_escape_reload_inside
   /\ ex_obs ex_escape_reload_outside = ex_spec ex_escape_reload_outside.
 Proof. exact ex_escape_obs. Qed.
+
+(* --- a fiber whose first frame is a function of ANOTHER module than its caller's (round 7): the function runs in its
+       own module's globals on the first call and after every resumption, the caller is back in its own globals after
+       every Fiber.yield and after the function has finished.  Event level: C14_fiber_call_enters_module (load_fiber) and
+       C14_return_restores_caller_module (unload_fiber) for every reachable state; here two fixed programs of the
+       mini-language (statement SGen), Mechanism = Spec = the listed lines --- *)
+Theorem C14_generator_fiber_keeps_module_globals :
+  ex_obs ex_gen_cross = mkobs ["11"; "1"; "5"; "77"; "5"; "5"; "77"] ["m1"] ObOk
+  /\ ex_obs ex_gen_cycle = mkobs ["11"; "31"; "<class ImportError>"; cyc_msg "m3"; "12"; "31"; "t32"; "12"; "1"] ["m1"; "m3"] ObOk
+  /\ ex_obs ex_gen_cross = ex_spec ex_gen_cross /\ ex_obs ex_gen_cycle = ex_spec ex_gen_cycle
+  /\ wf_prog (parse_prog ex_gen_cross) = true /\ wf_prog (parse_prog ex_gen_cycle) = true.
+Proof. exact ex_gen_obs. Qed.
 
 Theorem C14_closure_of_registered_module_refuted :
   ex_obs_reg ex_escape_reload_inside
@@ -435,6 +461,8 @@ Print Assumptions C14_side_error_kinds.
 Print Assumptions C14_side_main_literal.
 Print Assumptions C14_side_import_shape.
 Print Assumptions C14_side_active_module_sites.
+Print Assumptions C14_side_frame_switch_sites.
+Print Assumptions C14_generator_fiber_keeps_module_globals.
 Print Assumptions C14_side_builtin_names_known.
 Print Assumptions C14_side_default_loader.
 Print Assumptions C14_side_no_main_only_names.
